@@ -15,6 +15,9 @@ FILES = ["tokenize.py", "tokenizer.py", "subheader.py"]
 IMMUTABLE_CALLS = {"auto", "frozenset", "tuple", "str", "int", "float", "bool", "TypeVar", "NewType", "group", "choice", "maybe", "capname", "_all_string_prefixes"}
 
 
+GLOBAL_SETTERS = {"setrecursionlimit", "setswitchinterval", "setlocale", "seed", "filterwarnings", "simplefilter", "settrace", "setprofile", "set_int_max_str_digits", "setdefaulttimeout"}
+
+
 def is_mutable_value(v):
     if isinstance(v, (ast.List, ast.Dict, ast.Set, ast.ListComp, ast.DictComp, ast.SetComp)):
         return type(v).__name__.lower()
@@ -81,6 +84,19 @@ def scan(path):
                             out.append(f"{name}:write-class-attr:{fn.name}:{ast.unparse(t)}")
                         if isinstance(t, ast.Attribute) and isinstance(t.value, ast.Call) and ast.unparse(t.value.func) == "type":
                             out.append(f"{name}:write-class-attr:{fn.name}:{ast.unparse(t)}")
+                # interpreter- or process-global settings changed from inside the parser (they outlive the call and are
+                # shared by all threads)
+                if isinstance(n, ast.Call):
+                    fnm = ast.unparse(n.func)
+                    if fnm.split(".")[-1] in GLOBAL_SETTERS or fnm in ("os.putenv", "os.chdir", "os.umask") or fnm.startswith(("signal.", "gc.")):
+                        out.append(f"{name}:global-setting:{fn.name}:{fnm}")
+                if isinstance(n, (ast.Assign, ast.AugAssign, ast.Delete)):
+                    tg = n.targets if isinstance(n, (ast.Assign, ast.Delete)) else [n.target]
+                    for t in tg:
+                        if isinstance(t, ast.Subscript) and ast.unparse(t.value) in ("os.environ", "sys.modules", "environ"):
+                            out.append(f"{name}:global-setting:{fn.name}:{ast.unparse(t.value)}[...]")
+                        if isinstance(t, ast.Attribute) and isinstance(t.value, ast.Name) and t.value.id in ("sys", "os", "builtins", "ast", "re", "io", "tokenize"):
+                            out.append(f"{name}:global-setting:{fn.name}:{ast.unparse(t)}")
                 if isinstance(n, ast.Call) and isinstance(n.func, ast.Attribute) and n.func.attr in ("append", "extend", "update", "add", "pop", "clear", "setdefault", "insert", "remove") :
                     base = n.func.value
                     while isinstance(base, (ast.Subscript, ast.Attribute)):
